@@ -32,7 +32,7 @@ func init() {
 	vf.Register(&vf.Check{
 		ID:    "C04",
 		Level: "exploration",
-		Rule: "cases = snippets of generated programs (3–6 snippets per program; program i is a function of (seed, i); the first snippet's family is i mod #families, the rest weighted random) drawn from 23 families: " +
+		Rule: "cases = snippets of generated programs (3–6 snippets per program; program i is a function of (seed, i); the first snippet's family is i mod #families, the rest weighted random) drawn from 24 families: " +
 			"integer expressions at every width with operands biased to 0/±1/min/max, wrap-around identities, shifts (counts ≥ width, negative run-time counts, untyped-constant operands), integer/float conversions, float arithmetic, typed/untyped constant folding vs run-time twins, " +
 			"strings/runes/bytes, slices (append aliasing with known capacity, copy, 3-index, bounds, nil), arrays, structs, maps (sorted-key consumption), pointers, closures (per-iteration loop variables), defer/panic/recover, methods, interfaces and type switches, labels/goto, switch/fallthrough, deliberate run-time panics of every class, evaluation order, functions, scoping. " +
 			"Each program runs natively (Go 1.25.9, one build per batch) and on the GnoVM; outputs are compared line by line with panic messages reduced to a class. " +
